@@ -76,12 +76,12 @@ enum Code {
   SET_SCALAR, TO_ARRAY, TO_OBJECT, ADD_SCALAR, ADD_ARRAY, ADD_OBJECT, SET_INDEX, SET_KEY, SET_KEY2,
   REMOVE_INDEX, REMOVE_KEY, CLEAR_VALUE, SET_VARIANT, ADD_VARIANT, ARRAY_SET, OBJECT_SET,
   DOC_CLEAR, DOC_COPY_ASSIGN, DOC_MOVE_ASSIGN, DOC_SWAP, DOC_SET_DOC, DOC_FROM_VARIANT, SHRINK,
-  DESERIALIZE, HANDLE_TAKE, COPY_ARRAY, NCODES
+  DESERIALIZE, HANDLE_TAKE, COPY_ARRAY, CONTAINER_CLEAR, NCODES
 };
 static const char* kCodeName[] = {"set", "toArray", "toObject", "add", "addArray", "addObject", "setIndex", "setKey",
                                   "setKey2", "removeIndex", "removeKey", "clearValue", "setVariant", "addVariant",
                                   "arraySet", "objectSet", "docClear", "docCopyAssign", "docMoveAssign", "docSwap",
-                                  "docSetDoc", "docFromVariant", "shrinkToFit", "deserialize", "handle", "copyArray"};
+                                  "docSetDoc", "docFromVariant", "shrinkToFit", "deserialize", "handle", "copyArray", "containerClear"};
 
 struct Op {
   Code code = SET_SCALAR;
@@ -175,6 +175,7 @@ inline std::string opText(const Op& o) {
     case SHRINK: return d + ".shrinkToFit()";
     case DESERIALIZE: return "deserializeJson(" + p + "," + kTexts[o.a] + ")";
     case HANDLE_TAKE: return "R" + std::to_string(o.a) + "=" + p;
+    case CONTAINER_CLEAR: return p + (o.b ? ".as<JsonObject>().clear()" : ".as<JsonArray>().clear()");
     case COPY_ARRAY: return std::string("copyArray(") + (o.b == 2 ? "int[2][2]{{1,2},{3,4}}" : "int[3]{11,22,33}") + "," + (o.b == 1 ? d : p) + ")";
     default: return "?";
   }
@@ -492,6 +493,16 @@ inline Expect modelApply(World& W, const Op& o) {
       }
       break;
     }
+    case CONTAINER_CLEAR:  // JsonArray::clear() / JsonObject::clear(): the container stays, its children go
+      if (t && ((o.b == 0 && t->kind == MValue::Arr) || (o.b == 1 && t->kind == MValue::Obj))) {
+        bool had = !t->a.empty() || !t->o.empty();
+        killBelow(W, o.doc, o.path, false);
+        t = at(root, o.path);
+        t->a.clear();
+        t->o.clear();
+        E.mutates = had;
+      } else E.mutates = false;
+      break;
     case COPY_ARRAY: {
       MValue one = MValue::array();
       if (o.b == 2) {
@@ -790,6 +801,10 @@ inline std::string realApply(Real& R, const Op& o) {
       }
       return e.c_str();
     }
+    case CONTAINER_CLEAR:
+      if (o.b) resolve(d, o.path).as<JsonObject>().clear();
+      else resolve(d, o.path).as<JsonArray>().clear();
+      return "";
     case COPY_ARRAY: {
       int one[3] = {11, 22, 33};
       int two[2][2] = {{1, 2}, {3, 4}};
@@ -877,6 +892,8 @@ inline void enabledOps(const World& W, const Alphabet& AB, std::vector<Op>& out)
       }
       o.a = 0;
       o.code = CLEAR_VALUE; out.push_back(o);
+      if (t->kind == MValue::Arr || t->kind == MValue::Obj) { o.code = CONTAINER_CLEAR; o.b = t->kind == MValue::Obj ? 1 : 0; out.push_back(o); o.b = 0; }
+      if (AB.full && t->kind != MValue::Arr) { o.code = CONTAINER_CLEAR; o.b = 0; out.push_back(o); }  // on something that is not an array: no-op
       o.code = COPY_ARRAY; o.b = 0; out.push_back(o);
       if (AB.full || p.empty()) { o.b = 2; out.push_back(o); }
       if (p.empty()) { o.b = 1; out.push_back(o); }
